@@ -395,10 +395,13 @@ class Model:
             for k, (tag, _) in enumerate(layers):
                 if tag == target:
                     pos = k
+            # the merged dict carries a `forloop` key whenever a loop layer went into it: the library then takes it
+            # for a loop layer itself (it is merged again into fills nested deeper, and forwarded by F7's mechanism)
+            etag = "loop" if "forloop" in extra else "extra"
             if on_top or pos is None:
-                fenv = Env(tuple(layers) + (("extra", extra),))
+                fenv = Env(tuple(layers) + ((etag, extra),))
             else:
-                fenv = Env(tuple(layers[:pos]) + (("extra", extra),) + tuple(layers[pos:]))
+                fenv = Env(tuple(layers[:pos]) + ((etag, extra),) + tuple(layers[pos:]))
         elif self.mode == "isolated" or f.only:
             # lexical: the environment at the {% component %} tag + the loops the fill sits in
             fenv = f.env
